@@ -1677,6 +1677,60 @@ def _initial_body_awake(mjm: mujoco.MjModel, nworld: int, init_asleep: bool) -> 
   return body_awake_np
 
 
+@wp.kernel
+def _reset_history(
+  # Model:
+  nu: int,
+  nsensor: int,
+  opt_timestep: wp.array[float],
+  actuator_history: wp.array[wp.vec2i],
+  actuator_historyadr: wp.array[int],
+  sensor_dim: wp.array[int],
+  sensor_history: wp.array[wp.vec2i],
+  sensor_historyadr: wp.array[int],
+  sensor_interval: wp.array[wp.vec2],
+  # In:
+  reset_in: wp.array[bool],
+  # Data out:
+  history_out: wp.array2d[float],
+):
+  """Initial delay/interval buffers as in mj_resetData: [user, cursor = n - 1, n past timestamps, zero values]."""
+  worldid = wp.tid()
+
+  if not reset_in[worldid]:
+    return
+
+  timestep = opt_timestep[worldid % opt_timestep.shape[0]]
+
+  for i in range(nu):
+    n = actuator_history[i][0]
+    adr = actuator_historyadr[i]
+    if n > 0 and adr >= 0:
+      history_out[worldid, adr] = 0.0
+      history_out[worldid, adr + 1] = float(n - 1)
+      for k in range(n):
+        history_out[worldid, adr + 2 + k] = -float(n - k) * timestep
+        history_out[worldid, adr + 2 + n + k] = 0.0
+
+  for i in range(nsensor):
+    n = sensor_history[i][0]
+    adr = sensor_historyadr[i]
+    if n > 0 and adr >= 0:
+      period = timestep
+      last = -timestep
+      if sensor_interval[i][0] > 0.0:
+        period = sensor_interval[i][0]
+        last = -period
+        if sensor_interval[i][1] < 0.0:
+          last = sensor_interval[i][1]
+      history_out[worldid, adr] = last
+      history_out[worldid, adr + 1] = float(n - 1)
+      for k in range(n):
+        history_out[worldid, adr + 2 + k] = last - float(n - 1 - k) * period
+      for k in range(n * sensor_dim[i]):
+        history_out[worldid, adr + 2 + n + k] = 0.0
+
+
 def make_data(
   mjm: mujoco.MjModel,
   nworld: int = 1,
@@ -1882,6 +1936,27 @@ def make_data(
   d.ncdof.zero_()
   d.dof_cdof.fill_(-1)
   d.cdof_dof.fill_(-1)
+
+  # delay/interval buffers start with MuJoCo's initial cursor and past timestamps, not zeros
+  # (same kernel as reset_data, so a reset world is bit-identical to a fresh one)
+  if mjm.nhistory > 0:
+    wp.launch(
+      _reset_history,
+      dim=nworld,
+      inputs=[
+        mjm.nu,
+        mjm.nsensor,
+        wp.array([mjm.opt.timestep], dtype=float),
+        wp.array(mjm.actuator_history, dtype=wp.vec2i),
+        wp.array(mjm.actuator_historyadr, dtype=int),
+        wp.array(mjm.sensor_dim, dtype=int),
+        wp.array(mjm.sensor_history, dtype=wp.vec2i),
+        wp.array(mjm.sensor_historyadr, dtype=int),
+        wp.array(mjm.sensor_interval, dtype=wp.vec2),
+        wp.ones(nworld, dtype=bool),
+      ],
+      outputs=[d.history],
+    )
 
   warp_util.mark_batched(d)
   return d
@@ -2790,6 +2865,25 @@ def reset_data(m: types.Model, d: types.Data, reset: Optional[wp.array] = None):
       d.overflow,
     ],
   )
+
+  if m.nhistory > 0:
+    wp.launch(
+      _reset_history,
+      dim=d.nworld,
+      inputs=[
+        m.nu,
+        m.nsensor,
+        m.opt.timestep,
+        m.actuator_history,
+        m.actuator_historyadr,
+        m.sensor_dim,
+        m.sensor_history,
+        m.sensor_historyadr,
+        m.sensor_interval,
+        reset_input,
+      ],
+      outputs=[d.history],
+    )
 
   if sleep_enabled:
     sleep.update_sleep(m, d)
